@@ -475,8 +475,11 @@ func csvtMutate(rng *Rng, text string) (string, string) {
 	case 9: // the line cut after some cell
 		cs := strings.Split(l, ",")
 		if len(cs) > 4 {
-			l = strings.Join(cs[:3+rng.Intn(len(cs)-3)], ",")
-			name = "cut"
+			c := strings.Join(cs[:3+rng.Intn(len(cs)-3)], ",")
+			if strings.Count(c, `"`)%2 == 0 { // not inside a quoted cell (the cell would run on into the next line: outside the model)
+				l = c
+				name = "cut"
+			}
 		}
 	case 10: // the line twice
 		lines = append(lines[:li+1], append([]string{l}, lines[li+1:]...)...)
